@@ -6,7 +6,7 @@ import copy
 from props.common import call, viol, hx, set_knobs
 from sim.objects import build, snapshot, order_fingerprint
 from ref import fa, pda as rpda
-from gen import fa as genfa, pda as genpda
+from gen import fa as genfa, pda as genpda, edits
 import gambatools.pda_algorithms as pa
 
 ID = 'C09'
@@ -26,6 +26,9 @@ def _steps(rng, spec, n_steps):
         else:
             L = rng.choice(LIMITS)
         steps.append([L, w])
+        if rng.random() < 0.2:
+            # object-lifetime history: the same PDA object is edited in place between two queries
+            steps.append(['edit', edits.propose(rng, spec)])
     return steps
 
 
@@ -37,6 +40,14 @@ def gen_cases(rng, tier, rnd):
             for _ in range(3):
                 s, rank = genfa.rename(c, rng)
                 cases.append({'spec': s, 'rank': rank, 'abs': hx(c), 'steps': _steps(rng, s, 8)})
+    for _ in range({'quick': 2, 'thorough': 6, 'selftest': 1}[tier]):
+        # closures between 1000 and 4100 configurations, limits on both sides of them and of the default 1000
+        a = genpda.big_closure_pda(rng)
+        s, rank = genfa.rename(a, rng)
+        m = max(rpda.closure_sizes(s, '', 6000)[0])
+        lims = [m - 1, m, m + 1, 1000, 999, 1001, 1500, 3000, 5000, m // 2]
+        steps = [[max(1, rng.choice(lims)), rng.choice(['', s['Sigma'][0], s['Sigma'][0] * 2])] for _ in range(4)]
+        cases.append({'spec': s, 'rank': rank, 'abs': hx(a), 'steps': steps, 'big': True})
     while len(cases) < n:
         a = genpda.needle_pda(rng) if rng.random() < 0.06 else genpda.abstract_pda(rng)
         s, rank = genfa.rename(a, rng)
@@ -51,8 +62,20 @@ def run_case(case, env):
     dig = []
     nontrivial = False
     for L, w in case['steps']:
+        if L == 'edit':
+            set_knobs(limit=1000)
+            try:
+                edits.apply(P, w)
+            except Exception as e:
+                out['probes']['edit_raised'] = 1       # e.g. a library in-place normal form refusing its input
+            s0 = snapshot(P)
+            if rpda.validate(s0):
+                return {'harness_error': 'edit produced an invalid PDA: %s' % (w,)}
+            out['probes']['inplace_edit_between_calls'] = 1
+            dig.append(['edit', hx(s0)])
+            continue
         set_knobs(limit=L)
-        st, val, ticks = call(env, pa.pda_accepts_word, P, w, budget=100_000 + 2500 * (L + 30) * (len(w) + 1))
+        st, val, ticks = call(env, pa.pda_accepts_word, P, w, budget=100_000 + 2500 * (max(L, 1000) + 30) * (len(w) + 1))
         out['evals'] += 1
         out['ticks'] += ticks
         site = 'pda_accepts_word'
@@ -77,6 +100,8 @@ def run_case(case, env):
             out['probes']['closure_exceeds_limit'] = 1
             if L >= 1000:
                 out['probes']['closure_exceeds_1000'] = 1
+        if L > 1000 and within and max(sizes) > 1000:
+            out['probes']['limit_above_default_and_closure_between'] = 1
         if within and max(sizes) == L:
             out['probes']['limit_equals_closure_size'] = 1
         if within and max(sizes) == L - 1:
@@ -116,6 +141,8 @@ def shrink(case):
         c['spec'] = t
         yield c
     for i, (L, w) in enumerate(case['steps']):
+        if L == 'edit':
+            continue
         for j in range(len(w)):
             c = copy.deepcopy(case)
             c['steps'][i][1] = w[:j] + w[j + 1:]
